@@ -335,8 +335,10 @@ func (pb prefixDBBatch) GetByteSize() (int, error) {
 	return pb.source.GetByteSize()
 }
 
-// Returns a slice of the same length (big endian)
-// except incremented by one.
+// Returns the smallest byte string that is greater than every string with
+// the prefix bz: bz (big endian) incremented by one, without the trailing
+// bytes the increment carried over (the successor of "p\xff" is "q", not
+// "q\x00", which would let the foreign key "q" into the prefix's domain).
 // Returns nil on overflow (e.g. if bz bytes are all 0xFF)
 // CONTRACT: len(bz) > 0
 func cpIncr(bz []byte) (ret []byte) {
@@ -347,7 +349,7 @@ func cpIncr(bz []byte) (ret []byte) {
 	for i := len(bz) - 1; i >= 0; i-- {
 		if ret[i] < byte(0xFF) {
 			ret[i]++
-			return
+			return ret[:i+1]
 		}
 		ret[i] = byte(0x00)
 		if i == 0 {
